@@ -163,6 +163,14 @@ func c06Valid() []string {
 			}
 		}
 	}
+	// limit windows whose bounds do not fit an int when added up
+	for _, lim := range []string{"1, 9223372036854775807", "9223372036854775807, 1", "2, 9223372036854775806", "9223372036854775807", "9223372036854775807, 9223372036854775807",
+		"99999999999999999999", "1, 99999999999999999999", "0, 0", "4611686018427387904, 4611686018427387904"} {
+		for _, q := range []string{"select * where true", "select key, value where key != 'zz' order by value desc", "select value, count(1) where true group by value",
+			"select count(1), sum(strlen(value)) where true", "select substr(key, 0, 1) as g, count(1) as c where true group by g order by c", "delete where key ^= 'zz'", "select * where key in ('a', 'b')"} {
+			add(q + " limit " + lim)
+		}
+	}
 	// out-of-range substr / index arguments
 	for _, a := range []string{"0 - 1", "0", "1", "2", "3", "5", "100", "1.5", "0 - 5", "0 - 3", "int(value)", "strlen(key) - 9", "0 - 9223372036854775807", "9223372036854775807", "nan", "inf"} {
 		for _, b := range []string{"0 - 1", "0", "1", "2", "3", "5", "100", "0 - 5", "0 - 3", "int(value) + 2", "strlen(key) - 7", "9223372036854775807", "0 - 9223372036854775807", "nan", "inf"} {
